@@ -35,6 +35,7 @@ def shards(tier, seed):
     sh = [(tier, "graph", i, False) for i in range(NSH)]
     sh += [(tier, "graph", i, True) for i in range(0, NSH, 4)]
     sh += [(tier, "stream", i) for i in range(8)]
+    sh.append((tier, "startup", 0))
     return sh
 
 
@@ -192,6 +193,50 @@ def run_raw_nonascii(res, viol):
             res["streams"] = res.get("streams", 0) + 1
 
 
+def run_startup(res, viol):
+    """the full Client (control + BLOB connection) starting up against a server whose devices announce a property while
+    only one of the two connections is established yet (either order), or afterwards: no receive loop may stop and the
+    announced property must be mirrored"""
+    from mc.core import e2e
+    from mc.gen import deploy as DP
+    from mc.ref import driver_model as DM
+
+    for variant in ("text", "blob", "switch-OneOfMany"):
+        for order in (None, ("ctl", "blob"), ("blob", "ctl")):
+            for announce in (False, True):
+                if order is None and announce:
+                    continue
+                specs = DP.deployment(variant=variant, ndev=1)
+                w = e2e.World(specs)
+                rep = {"kind": "startup"}
+                try:
+                    between = None
+                    if announce:
+
+                        def between():
+                            DM.live_group(w.devices[0], specs[0]["groups"][0]).vectors["t"].enabled = True
+
+                    try:
+                        c = w.make_client(order, between)
+                    except Exception as e:  # noqa
+                        viol("receive-loop-stopped", "client-start-up,connect=%s,announce=%s,%s" % ("-".join(order) if order else "at-once", announce, type(e).__name__), repr(e), rep)
+                        continue
+                    DM.live_group(w.devices[0], specs[0]["groups"][0]).vectors["t"].state_ = "Busy"
+                    w.settle()
+                    res["transitions"] += 3
+                    res["streams"] = res.get("streams", 0) + 1
+                    errs = w.loop.collect_errors()
+                    d = "client-start-up,connect=%s,announce=%s" % ("-".join(order) if order else "at-once", announce)
+                    if errs:
+                        viol("receive-loop-stopped", d, "errors in the client's tasks: %r" % ([e.get("message") for e in errs][:2],), rep)
+                    dev = c.get_device("DEV0")
+                    vec = dev.get_vector("TGT") if dev else None
+                    if vec is None or (vec.state != "Busy" and variant != "blob"):
+                        viol("mirror-differs-after-stream", d, "after start-up and a state change the client shows %r" % (None if vec is None else vec.state,), rep)
+                finally:
+                    w.close()
+
+
 def run_shard(shard):
     tier, what = shard[0], shard[1]
     alpha, order = graph(tier)
@@ -227,6 +272,8 @@ def run_shard(shard):
             res["samples"].append({"alphabet_size": len(alpha), "model_states": len(order), "max_depth": max(len(p) for _, p in order), "example_path": [alpha[i][0] for i in order[-1][1]]})
             res["counters"]["model_states"] = len(order)
             res["counters"]["max_depth"] = max(len(p) for _, p in order)
+    elif what == "startup":
+        run_startup(res, viol)
     else:
         if shard[2] == 0:
             run_raw_nonascii(res, viol)
@@ -263,7 +310,9 @@ def replay(rep):
     def viol(clause, disc, what, replay):
         out.append({"clause": clause, "disc": disc, "what": what})
 
-    if rep["kind"] == "raw":
+    if rep["kind"] == "startup":
+        run_startup(res, viol)
+    elif rep["kind"] == "raw":
         run_raw_nonascii(res, viol)
     elif rep["kind"] == "graph":
         check_transition(alpha, views, tuple(rep["path"]), rep["msg"], rep["snoop"], res, viol)
